@@ -51,7 +51,7 @@ fn not_subset(sub: &List, sup: &[&List], maxn: usize) -> Option<String> {
     let nl = label_count(&f);
     let maxn = if nl > 64 { maxn.min(2) } else if nl > 20 { maxn.min(3) } else { maxn };
     let mut bad = None;
-    for_each_dom(&f, maxn, |dom| {
+    for_each_dom_with(&f, maxn, true, |dom| {
         let cr = none(dom.len());
         for e in 0..dom.len() {
             if m_list(&f, dom, e, sub, &cr) && !sup.iter().all(|s| m_list(&f, dom, e, s, &cr)) {
@@ -298,5 +298,5 @@ pub fn run(ctx: &Ctx) {
     );
     ctx.bound(sub, "every selector of the alphabet: selector-parse then print keeps the match set on every DOM of <= 3 elements", true);
     ctx.sample(sub, json!({"input": "selector-parse(\".x + .y ~ .x\")"}));
-    ctx.assume("DOM trees have <= 3 elements; element labels range over the subsets of the features (types, ids, classes, attributes, opaque pseudos) the judged selectors mention plus one unmentioned type; attribute selectors and pseudo selectors with different text are independent opaque features");
+    ctx.assume("DOMs are trees and forests of <= 3 elements (a forest stands for a tree with one more, unlabelled, root); element labels range over the subsets of the features (types, ids, classes, attributes, opaque pseudos) the judged selectors mention plus one unmentioned type; attribute selectors and pseudo selectors with different text are independent opaque features");
 }
